@@ -171,6 +171,14 @@ func paramTag(p Param) reflect.StructTag {
 }
 
 func inStructType(ps []Param) reflect.Type {
+	for _, p := range ps {
+		if p.Emb {
+			if t := embInType(ps); t != nil {
+				return t
+			}
+			panic("no static parameter object for this embedded shape")
+		}
+	}
 	fields := []reflect.StructField{{Name: "In", Type: reflect.TypeOf(godi.In{}), Anonymous: true}}
 	for i, p := range ps {
 		t := depGoType(p.Dep)
@@ -183,6 +191,14 @@ func inStructType(ps []Param) reflect.Type {
 }
 
 func outStructType(fs []Field) reflect.Type {
+	for _, f := range fs {
+		if f.Emb {
+			if t := embOutType(fs); t != nil {
+				return t
+			}
+			panic("no static result object for this embedded shape")
+		}
+	}
 	fields := []reflect.StructField{{Name: "Out", Type: reflect.TypeOf(godi.Out{}), Anonymous: true}}
 	for i, f := range fs {
 		var parts []string
